@@ -53,13 +53,36 @@ struct ScriptedAgent {
     laziness: usize,
 }
 
-type VRx = FramedRead<ByteReader, ValueLaneRequestDecoder<i64>>;
+/// The value lanes hold an `Option<i64>`: `None` is written as an empty body (the number below stands for it in
+/// the model, where values are opaque).
+const NONE_CODE: i64 = -7777;
+fn enc_v(v: i64) -> Option<i64> {
+    if v == NONE_CODE {
+        None
+    } else {
+        Some(v)
+    }
+}
+fn dec_v(o: Option<i64>) -> i64 {
+    o.unwrap_or(NONE_CODE)
+}
+fn parse_body(s: &str) -> Option<i64> {
+    let t = s.trim();
+    if t.is_empty() {
+        Some(NONE_CODE)
+    } else {
+        t.parse().ok()
+    }
+}
+
+type VRx = FramedRead<ByteReader, ValueLaneRequestDecoder<Option<i64>>>;
 type VTx = FramedWrite<ByteWriter, ValueLaneResponseEncoder>;
 type MRx = FramedRead<ByteReader, MapLaneRequestDecoder<i64, i64>>;
 type MTx = FramedWrite<ByteWriter, MapLaneResponseEncoder>;
 
-async fn value_lane(mut rx: VRx, mut tx: VTx, mut state: i64, laziness: usize) {
-    let mut pending: Option<i64> = None;
+async fn value_lane(mut rx: VRx, mut tx: VTx, state: i64, laziness: usize) {
+    let mut state: Option<i64> = enc_v(state);
+    let mut pending: Option<Option<i64>> = None;
     let mut waited = 0usize;
     while let Some(Ok(req)) = rx.next().await {
         match req {
@@ -72,7 +95,7 @@ async fn value_lane(mut rx: VRx, mut tx: VTx, mut state: i64, laziness: usize) {
                 if tx.send(LaneResponse::SyncEvent(id, state)).await.is_err() {
                     return;
                 }
-                if tx.send(LaneResponse::<i64>::Synced(id)).await.is_err() {
+                if tx.send(LaneResponse::<Option<i64>>::Synced(id)).await.is_err() {
                     return;
                 }
                 // ... and only then the change itself
@@ -164,12 +187,12 @@ impl Agent for ScriptedAgent {
             let mut r = Restored::default();
             loop {
                 match v_rx.next().await {
-                    Some(Ok(LaneRequest::Command(x))) => r.v = x,
+                    Some(Ok(LaneRequest::Command(x))) => r.v = dec_v(x),
                     Some(Ok(LaneRequest::InitComplete)) => break,
                     _ => return Err(AgentInitError::LaneInitializationFailure(FrameIoError::Io(std::io::ErrorKind::UnexpectedEof.into()))),
                 }
             }
-            let _ = v_tx.send(LaneResponse::<i64>::Initialized).await;
+            let _ = v_tx.send(LaneResponse::<Option<i64>>::Initialized).await;
             let mut m = BTreeMap::new();
             loop {
                 match m_rx.next().await {
@@ -470,8 +493,8 @@ async fn sync_all(r: &mut Remote) -> Option<(BTreeMap<String, String>, BTreeMap<
 
 fn body(c: &Cmd) -> (&'static str, String) {
     match c {
-        Cmd::SetV(x) => ("v", x.to_string()),
-        Cmd::SetT(x) => ("t", x.to_string()),
+        Cmd::SetV(x) => ("v", if *x == NONE_CODE { String::new() } else { x.to_string() }),
+        Cmd::SetT(x) => ("t", if *x == NONE_CODE { String::new() } else { x.to_string() }),
         Cmd::Upd(k, x) => ("m", format!("@update(key:{}) {}", k, x)),
         Cmd::Rem(k) => ("m", format!("@remove(key:{})", k)),
         Cmd::Clr => ("m", "@clear".to_string()),
@@ -588,7 +611,7 @@ fn zi(n: i64) -> String {
     format!("({})%Z", n)
 }
 fn parse_i(b: &[u8]) -> Option<i64> {
-    std::str::from_utf8(b).ok()?.trim().parse().ok()
+    parse_body(std::str::from_utf8(b).ok()?)
 }
 /// A map operation as it appears in an event body.
 fn parse_map_event(s: &str) -> Option<String> {
@@ -615,7 +638,7 @@ fn coq_entry(e: &LogEntry) -> Option<String> {
         LogEntry::Store(StoreOp::Clear(n)) => format!("LMap {} MClear", item_index(n)),
         LogEntry::Frame(r, lane, FrameKind::Event(b)) => {
             if lane == "v" || lane == "t" {
-                format!("LSentV {} {} {}", r % 1000, item_index(lane), zi(b.trim().parse().ok()?))
+                format!("LSentV {} {} {}", r % 1000, item_index(lane), zi(parse_body(b)?))
             } else {
                 format!("LSentM {} {} ({})", r % 1000, item_index(lane), parse_map_event(b)?)
             }
@@ -647,7 +670,7 @@ fn main() {
     let mut w = CaseWriter::new(
         "From SwimV Require Import Model.Persist.\nOpen Scope N_scope.",
         "pcase",
-        &["p_corr_bad", "p_oracle_bad"],
+        &["p_corr_bad", "p_oracle_bad", "p_restart_bad"],
         args.shards,
     );
     let rt = tokio::runtime::Builder::new_current_thread().enable_all().build().unwrap();
@@ -665,7 +688,7 @@ fn main() {
                 match rng.below(14) {
                     10 | 11 => Cmd::Sync("v"),
                     12 | 13 => Cmd::Sync("m"),
-                    0 | 1 | 2 => Cmd::SetV(next),
+                    0 | 1 | 2 => Cmd::SetV(if rng.below(5) == 0 { NONE_CODE } else { next }),
                     3 => Cmd::SetT(next),
                     4 | 5 | 6 => Cmd::Upd(rng.range(0, 3) as i64, next),
                     7 => Cmd::Rem(rng.range(0, 3) as i64),
@@ -725,7 +748,7 @@ fn main() {
             match rt.block_on(second_life(content)) {
                 Ok((restored, values, maps)) => {
                     *kinds.entry("restarts".into()).or_default() += 1;
-                    let pv = |l: &str| values.get(l).and_then(|s| s.trim().parse::<i64>().ok());
+                    let pv = |l: &str| values.get(l).and_then(|s| parse_body(s));
                     let pm = |l: &str| -> Option<Vec<String>> { maps.get(l).map(|es| es.iter().filter_map(|e| parse_map_event(e)).collect()) };
                     let (sv, st) = match (pv("v"), pv("t")) {
                         (Some(a), Some(b)) => (a, b),
